@@ -484,7 +484,11 @@ impl FaultEngine {
                 let retry = exec(&mut wx, line);
                 rec.op(line.clone(), retry.clone());
                 let clean = clean_outs.first().cloned().unwrap_or_default();
-                if cls != "ok" {
+                // a loader that probes the cache (`?` get_cached, `@` get_or_insert) legitimately answers differently once the failed
+                // attempt has cached what it probes: "same as a run without any fault" is owed only by scripts that do not probe
+                let probes = wx.src.lock().files.iter().any(|((_, ext), st)| ext == "s" && match st { crate::types::FileSt::Bytes(b, _) => std::str::from_utf8(b).map_or(false, |t| t.split_whitespace().any(|tok| tok.starts_with('?') || tok.starts_with('@'))), _ => false });
+                if probes { rec.stat("recovery-compared-with-the-model-only(cache-probing-script)"); }
+                if cls != "ok" && !probes {
                     if strip_handle(&retry) != strip_handle(&clean) { rec.oracle_fail(format!("no-recovery-after-fault `{}` made `{line}` answer {out}; after the fault is gone it answers {retry}, without any fault {clean}", f.line)); }
                     rec.stat("recovery-checked");
                 } else if strip_handle(&out) != strip_handle(&clean) { rec.stat("tolerated-fault-changed-value"); } else { rec.stat("tolerated-fault-same-value"); }
